@@ -355,6 +355,9 @@ def gen_range_lists(ctx):
         if N >= 6:
             fields.append(mk_field("rep", "arb", 6, [(0, 3), (2, 3)], access="r"))
             fields.append(mk_field("repw", "arb", 5, [(1, 3), (3, 4)], access="rw"))
+            # overlapping pieces that reach the top bit of the base (carry / overflow sensitive)
+            fields.append(mk_field("repm", "arb", 6, [(N - 4, N - 1), (N - 2, N - 1)], access="rw"))
+            fields.append(mk_field("repl", "arb", 5, [(0, 2), (1, 2)], access="rw"))
         # arrays of lists: stride = span, interleaving stride
         if N >= 8:
             fields.append(mk_field("al", "arb", 2, [(0, 0), (2, 2)], count=2, stride=4))
